@@ -73,6 +73,8 @@ Cleanup ==
   /\ reply' = Rep("n", NoVal, 0, 0)
   /\ UNCHANGED now
 
+WalkStop == reply' = (IF Present = {} THEN Rep("n", NoVal, 0, 0) ELSE Rep("stopped", NoVal, 0, 0)) /\ UNCHANGED <<now, m>>
+
 Relay == reply' = Rep("n", NoVal, 0, Cardinality(Present)) /\ UNCHANGED <<now, m>>
 
 Tick == now < MaxNow /\ now' = now + 1 /\ reply' = Rep("ok", NoVal, 0, 0) /\ UNCHANGED m
@@ -81,7 +83,7 @@ Next ==
   \/ \E k \in Keys, v \in Vals, t \in TTLs : Write(k, v, t)
   \/ \E k \in Keys, s \in BOOLEAN : Read(k, s)
   \/ \E k \in Keys : Delete(k)
-  \/ ExpireAll \/ DeleteAll \/ LenOp \/ Tick \/ Cleanup \/ Relay
+  \/ ExpireAll \/ DeleteAll \/ LenOp \/ Tick \/ Cleanup \/ Relay \/ WalkStop
 
 vars == <<now, m, reply>>
 Spec == Init /\ [][Next]_vars
